@@ -28,12 +28,17 @@
 //!      accepted where the venue encodes the side in the sign; any time stamp the message carries);
 //!   R5 a message for a market nobody subscribed yields only `Err`s that denote an unidentifiable
 //!      subscription – never an event, never silence.
+//! Added by the hardening rounds: a fifth flavour `indexed-keyed` (`Keyed<InstrumentIndex, MarketDataInstrument>`
+//! from the real `index_market_data_subscription_batches`; R2 also demands that the index it assigns is the index of
+//! the instrument the user named); the `dynamic` way in (real `validate_batches` before the mapper); R4 also judges
+//! the L1 `last_update_time` and the event after the real conversion into `MarketEvent<_, DataKind>`; values that are
+//! not exactly representable in binary.
 
 use crate::core::{Ctx, Distinct, Outcome, Samples, hash_of};
 use barter_data::{
     Identifier,
     books::OrderBook,
-    event::MarketEvent,
+    event::{DataKind, MarketEvent},
     exchange::{
         Connector, StreamSelector,
         binance::{book::l2::BinanceOrderBookL2Snapshot, futures::BinanceFuturesUsd, spot::BinanceSpot},
@@ -55,7 +60,10 @@ use barter_data::{
         mapper::{SubscriptionMapper, WebSocketSubMapper},
         validator::SubscriptionValidator,
     },
-    streams::builder::dynamic::indexed::generate_indexed_market_data_subscription_batches,
+    streams::builder::dynamic::{
+        indexed::{generate_indexed_market_data_subscription_batches, index_market_data_subscription_batches},
+        validate_batches,
+    },
     subscription::{
         Map, SubKind, Subscription, SubscriptionKind, SubscriptionMeta,
         book::{OrderBookEvent, OrderBookL1, OrderBooksL1, OrderBooksL2},
@@ -168,7 +176,9 @@ impl IK {
                 kind: if call { OptionKind::Call } else { OptionKind::Put },
                 exercise: OptionExercise::European,
                 expiry: ymd(d),
-                strike: Decimal::from(strike),
+                // the strike 6500 is written as `6500.0` (a Decimal of scale 1, numerically equal to 6500): the
+                // venue names the contract by the number, not by how the user happened to write it
+                strike: if strike == 6500 || (strike == 35000 && !call) { Decimal::new(strike as i64 * 10, 1) } else { Decimal::from(strike) },
             }),
         }
     }
@@ -332,17 +342,95 @@ impl PairSpec {
     }
 }
 
-const FLAVOURS: [&str; 4] = ["keyed", "named", "plain", "indexed"];
+const FLAVOURS: [&str; 5] = ["keyed", "named", "plain", "indexed", "indexed-keyed"];
+/// How the subscriptions reach the mapper: `direct` = typed `Subscription<Exchange, Inst, Kind>` built by the caller
+/// in the caller's order (the `Streams::builder().subscribe(..)` path); `dynamic` = the `DynamicStreams::init` path:
+/// `Subscription<ExchangeId, Inst, SubKind>` -> real `validate_batches` (validate, sort, dedup) -> re-wrapped with the
+/// connector type per (exchange, kind) exactly as the arms of `DynamicStreams::init` do.
+const VIAS: [&str; 2] = ["direct", "dynamic"];
 
 // ------------------------------------------------------------------------------------------------
 // Instrument flavours
 // ------------------------------------------------------------------------------------------------
 
-trait Flav: InstrumentData {
+/// (instruments in menu order, per menu entry: why its key is not the key of the instrument the user named - only
+/// for flavours whose key is computed by code under test)
+type Menu<I> = (Vec<I>, Vec<Option<String>>);
+trait Flav: InstrumentData + Ord {
     fn build(idx: usize, venue_name: &str, m: &MI) -> Self;
     /// The instrument for every menu entry, in menu order.
-    fn build_menu(spec: &PairSpec) -> Vec<Self> {
-        spec.menu.iter().enumerate().map(|(i, m)| Self::build(i, &venue_symbol(spec.fam, m), m)).collect()
+    fn build_menu(spec: &PairSpec) -> Result<Menu<Self>, String> {
+        let v: Vec<Self> = spec.menu.iter().enumerate().map(|(i, m)| Self::build(i, &venue_symbol(spec.fam, m), m)).collect();
+        let n = v.len();
+        Ok((v, vec![None; n]))
+    }
+}
+/// The menu as real `IndexedInstruments` (together with two instruments of another exchange, internal names permuted
+/// so that the `InstrumentIndex` differs from the menu position) + the internal name of menu entry i.
+fn indexed_menu(spec: &PairSpec) -> (IndexedInstruments, Vec<InstrumentNameInternal>) {
+    let n = spec.menu.len();
+    let mult = if n % 3 == 0 { 5 } else { 3 };
+    let internal = |i: usize| InstrumentNameInternal::new(format!("m{:02}", (i * mult + 1) % n));
+    let mut b = IndexedInstruments::builder()
+        .add_instrument(Instrument::spot(ExchangeId::Mock, "mock_a", "A_B", Underlying::new("a", "b"), None))
+        .add_instrument(Instrument::spot(ExchangeId::Mock, "mock_c", "C_B", Underlying::new("c", "b"), None));
+    for (i, m) in spec.menu.iter().enumerate() {
+        let (base, quote) = (m.base.to_lowercase(), m.quote.to_lowercase());
+        let settle = || Asset::from(quote.as_str());
+        let kind = match m.kind {
+            IK::Spot => InstrumentKind::Spot,
+            IK::Perp => InstrumentKind::Perpetual(PerpetualContract { contract_size: Decimal::ONE, settlement_asset: settle() }),
+            IK::Fut(d) => InstrumentKind::Future(FutureContract { contract_size: Decimal::ONE, settlement_asset: settle(), expiry: ymd(d) }),
+            IK::Opt(d, k, call) => InstrumentKind::Option(OptionContract {
+                contract_size: Decimal::ONE,
+                settlement_asset: settle(),
+                kind: if call { OptionKind::Call } else { OptionKind::Put },
+                exercise: OptionExercise::European,
+                expiry: ymd(d),
+                strike: Decimal::from(k),
+            }),
+        };
+        b = b.add_instrument(Instrument::new(
+            spec.id,
+            internal(i),
+            venue_symbol(spec.fam, m),
+            Underlying::new(base.as_str(), quote.as_str()),
+            InstrumentQuoteAsset::UnderlyingQuote,
+            kind,
+            None,
+        ));
+    }
+    (b.build(), (0..n).map(internal).collect())
+}
+/// `indexed-keyed` flavour - the path of a user who writes `MarketDataInstrument` subscriptions and has them indexed:
+/// the real `index_market_data_subscription_batches` looks every (exchange, kind, base, quote) up in the real
+/// `IndexedInstruments` and produces `Keyed<InstrumentIndex, MarketDataInstrument>`. The key it must produce is the
+/// index of the instrument the user named (independently: `find_instrument_index` by internal name); menu entries
+/// that name the same instrument (btc/usdt vs BTC/usdt) may get either index.
+impl Flav for Keyed<InstrumentIndex, MarketDataInstrument> {
+    fn build(_: usize, _: &str, _: &MI) -> Self {
+        unreachable!("built per menu")
+    }
+    fn build_menu(spec: &PairSpec) -> Result<Menu<Self>, String> {
+        let (indexed, internal) = indexed_menu(spec);
+        let subs: Vec<Subscription<ExchangeId, MarketDataInstrument, SubKind>> =
+            spec.menu.iter().map(|m| Subscription::new(spec.id, MarketDataInstrument::new(m.base, m.quote, m.kind.real()), spec.sk.sub_kind())).collect();
+        let out = index_market_data_subscription_batches(&indexed, vec![subs]).map_err(|e| format!("index_market_data_subscription_batches failed: {e}"))?;
+        let insts: Vec<Self> = out.into_iter().flatten().map(|s| s.instrument).collect();
+        if insts.len() != spec.menu.len() {
+            return Err(format!("index_market_data_subscription_batches returned {} subscriptions for {}", insts.len(), spec.menu.len()));
+        }
+        let same = |a: &MI, b: &MI| a.base.eq_ignore_ascii_case(b.base) && a.quote.eq_ignore_ascii_case(b.quote) && a.kind == b.kind;
+        let problems = (0..insts.len())
+            .map(|i| {
+                let allowed: Vec<InstrumentIndex> = (0..insts.len())
+                    .filter(|j| same(&spec.menu[i], &spec.menu[*j]))
+                    .map(|j| indexed.find_instrument_index(spec.id, &internal[j]).expect("menu instrument indexed"))
+                    .collect();
+                (!allowed.contains(&insts[i].key)).then(|| format!("subscription for {:?} was given {:?}, the instrument's index is {allowed:?}", spec.menu[i], insts[i].key))
+            })
+            .collect();
+        Ok((insts, problems))
     }
 }
 /// `indexed` flavour – the engine's path: the menu becomes real `IndexedInstruments` (together with two instruments
@@ -353,44 +441,13 @@ impl Flav for MarketInstrumentData<InstrumentIndex> {
     fn build(_: usize, _: &str, _: &MI) -> Self {
         unreachable!("built per menu")
     }
-    fn build_menu(spec: &PairSpec) -> Vec<Self> {
+    fn build_menu(spec: &PairSpec) -> Result<Menu<Self>, String> {
         let n = spec.menu.len();
-        let mult = if n % 3 == 0 { 5 } else { 3 };
-        let internal = |i: usize| InstrumentNameInternal::new(format!("m{:02}", (i * mult + 1) % n));
-        let mut b = IndexedInstruments::builder()
-            .add_instrument(Instrument::spot(ExchangeId::Mock, "mock_a", "A_B", Underlying::new("a", "b"), None))
-            .add_instrument(Instrument::spot(ExchangeId::Mock, "mock_c", "C_B", Underlying::new("c", "b"), None));
-        for (i, m) in spec.menu.iter().enumerate() {
-            let (base, quote) = (m.base.to_lowercase(), m.quote.to_lowercase());
-            let settle = || Asset::from(quote.as_str());
-            let kind = match m.kind {
-                IK::Spot => InstrumentKind::Spot,
-                IK::Perp => InstrumentKind::Perpetual(PerpetualContract { contract_size: Decimal::ONE, settlement_asset: settle() }),
-                IK::Fut(d) => InstrumentKind::Future(FutureContract { contract_size: Decimal::ONE, settlement_asset: settle(), expiry: ymd(d) }),
-                IK::Opt(d, k, call) => InstrumentKind::Option(OptionContract {
-                    contract_size: Decimal::ONE,
-                    settlement_asset: settle(),
-                    kind: if call { OptionKind::Call } else { OptionKind::Put },
-                    exercise: OptionExercise::European,
-                    expiry: ymd(d),
-                    strike: Decimal::from(k),
-                }),
-            };
-            b = b.add_instrument(Instrument::new(
-                spec.id,
-                internal(i),
-                venue_symbol(spec.fam, m),
-                Underlying::new(base.as_str(), quote.as_str()),
-                InstrumentQuoteAsset::UnderlyingQuote,
-                kind,
-                None,
-            ));
-        }
-        let indexed = b.build();
+        let (indexed, internal) = indexed_menu(spec);
         let batches = generate_indexed_market_data_subscription_batches(&indexed, &[spec.sk.sub_kind()]);
-        (0..n)
+        let v: Vec<Self> = (0..n)
             .map(|i| {
-                let key = indexed.find_instrument_index(spec.id, &internal(i)).expect("menu instrument indexed");
+                let key = indexed.find_instrument_index(spec.id, &internal[i]).expect("menu instrument indexed");
                 batches
                     .iter()
                     .flatten()
@@ -399,7 +456,8 @@ impl Flav for MarketInstrumentData<InstrumentIndex> {
                     .instrument
                     .clone()
             })
-            .collect()
+            .collect();
+        Ok((v, vec![None; n]))
     }
 }
 impl Flav for Keyed<u32, MarketDataInstrument> {
@@ -453,10 +511,12 @@ fn ms(t: i64) -> DateTime<Utc> {
 fn us(t: i64) -> DateTime<Utc> {
     Utc.timestamp_micros(t).unwrap()
 }
+/// Prices / quantities as the venues write them: decimal strings, most of them NOT exactly representable in binary
+/// (so that a narrower or rounded intermediate representation shows), with 2 and with 8 decimals, one integer.
 fn price(midx: usize, v: usize) -> String {
-    format!("{}.5", 100 + 10 * midx + v)
+    format!("{}.{}", 100 + 10 * midx + v, if v % 2 == 0 { "57" } else { "12345678" })
 }
-const QTY: [&str; 4] = ["0.25", "1.5", "2.125", "3"];
+const QTY: [&str; 4] = ["0.1", "1.53", "0.00012345", "3"];
 fn t_ms(midx: usize, v: usize) -> i64 {
     1_700_000_000_123 + 10_000 * midx as i64 + 7 * v as i64
 }
@@ -724,6 +784,10 @@ trait Ev: Sized + Debug {
     fn side(&self) -> Option<Side> {
         None
     }
+    /// A second place in which the event kind itself carries the exchange time of the update (L1 `last_update_time`).
+    fn kind_time(&self) -> Option<DateTime<Utc>> {
+        None
+    }
     /// Initial snapshot the (L2) transformer needs for a subscribed key; built with the real conversion
     /// the snapshot fetcher uses (`MarketEvent::from((ExchangeId, key, BinanceOrderBookL2Snapshot))`).
     fn snapshot<K>(_: ExchangeId, _: K) -> Option<MarketEvent<K, Self>> {
@@ -755,6 +819,9 @@ impl Ev for OrderBookL1 {
         let (b, a) = (lvl(&self.best_bid), lvl(&self.best_ask));
         vec![b.0, b.1, a.0, a.1]
     }
+    fn kind_time(&self) -> Option<DateTime<Utc>> {
+        Some(self.last_update_time)
+    }
 }
 impl Ev for OrderBookEvent {
     fn nums(&self) -> Vec<f64> {
@@ -770,12 +837,42 @@ impl Ev for OrderBookEvent {
     }
 }
 
+/// The combined event kind of the engine's path (`DynamicStreams::select_all::<MarketStreamResult<_, DataKind>>`).
+impl Ev for DataKind {
+    fn nums(&self) -> Vec<f64> {
+        match self {
+            DataKind::Trade(x) => x.nums(),
+            DataKind::OrderBookL1(x) => x.nums(),
+            DataKind::OrderBook(x) => x.nums(),
+            DataKind::Liquidation(x) => x.nums(),
+            DataKind::Candle(_) => vec![],
+        }
+    }
+    fn side(&self) -> Option<Side> {
+        match self {
+            DataKind::Trade(x) => x.side(),
+            DataKind::Liquidation(x) => x.side(),
+            _ => None,
+        }
+    }
+    fn kind_time(&self) -> Option<DateTime<Utc>> {
+        match self {
+            DataKind::OrderBookL1(x) => x.kind_time(),
+            _ => None,
+        }
+    }
+}
+
 #[derive(Clone, Debug)]
 struct ObsEv {
+    /// what the real conversion into `MarketEvent<_, DataKind>` (the form in which the event reaches the engine)
+    /// changed in key / exchange / time / values, if anything
+    conv_diff: Option<String>,
     /// canonical menu index of the key the event carries (None = a key that is not in the menu at all)
     key: Option<usize>,
     exchange: ExchangeId,
     time: DateTime<Utc>,
+    kind_time: Option<DateTime<Utc>>,
     nums: Vec<f64>,
     side: Option<Side>,
 }
@@ -822,6 +919,8 @@ struct Args<'a> {
     spec: &'a PairSpec,
     /// ordered menu indices of the subscribed instruments
     subset: &'a [usize],
+    /// through the `DynamicStreams::init` front end (`validate_batches`) or directly (see `VIAS`)
+    dynamic: bool,
     /// only these (market, variant) messages (replay); None = all
     only: Option<(&'a str, Option<&'a str>)>,
 }
@@ -833,25 +932,50 @@ where
     Inst::Key: PartialEq + 'static,
     Kind: SubscriptionKind + Send,
     Kind::Event: Ev,
+    MarketEvent<Inst::Key, Kind::Event>: Into<MarketEvent<Inst::Key, DataKind>>,
     Subscription<Ex, Inst, Kind>: Identifier<Ex::Channel> + Identifier<Ex::Market>,
     <Ex as StreamSelector<Inst, Kind>>::Stream: HasTransformer,
     TOf<Ex, Inst, Kind>: ExchangeTransformer<Ex, Inst::Key, Kind>,
 {
     let spec = a.spec;
     assert_eq!(Ex::ID, spec.id, "pair table and connector type disagree");
-    let menu_insts: Vec<Inst> = Inst::build_menu(spec);
+    let (menu_insts, key_problems): Menu<Inst> = match Inst::build_menu(spec) {
+        Ok(m) => m,
+        Err(e) => {
+            return Driven { canon: (0..spec.menu.len()).collect(), map_ids: vec![], setup_err: Some(format!("indexing: {e}")), unsettled: false, msgs: vec![], obs: vec![] };
+        }
+    };
     let canon: Vec<usize> = (0..menu_insts.len())
         .map(|i| (0..=i).find(|j| menu_insts[*j].key() == menu_insts[i].key()).unwrap())
         .collect();
     let key_idx = |k: &Inst::Key| menu_insts.iter().position(|m| m.key() == k);
 
-    // subscription side: the real mapper
-    let subs: Vec<Subscription<Ex, Inst, Kind>> =
-        a.subset.iter().map(|i| Subscription::new(Ex::default(), menu_insts[*i].clone(), kind.clone())).collect();
-    let meta: SubscriptionMeta<Inst::Key> = WebSocketSubMapper::map::<Ex, Inst, Kind>(&subs);
-
     let universe = spec.universe();
     let mut driven = Driven { canon, map_ids: vec![], setup_err: None, unsettled: false, msgs: vec![], obs: vec![] };
+    // a subscribed instrument whose key (computed by code under test) is not the key of the instrument the user named
+    if let Some(p) = a.subset.iter().find_map(|i| key_problems[*i].as_ref()) {
+        driven.setup_err = Some(format!("indexing: wrong-instrument: {p}"));
+        return driven;
+    }
+
+    // front end of `DynamicStreams::init`: the real `validate_batches`, then the re-wrapping of its arms
+    let insts: Vec<Inst> = if a.dynamic {
+        let dyn_subs: Vec<Subscription<ExchangeId, Inst, SubKind>> =
+            a.subset.iter().map(|i| Subscription::new(spec.id, menu_insts[*i].clone(), spec.sk.sub_kind())).collect();
+        match validate_batches(vec![dyn_subs]) {
+            Ok(batches) => batches.into_iter().flatten().map(|s| s.instrument).collect(),
+            Err(e) => {
+                driven.setup_err = Some(format!("dynamic validation: {e}"));
+                return driven;
+            }
+        }
+    } else {
+        a.subset.iter().map(|i| menu_insts[*i].clone()).collect()
+    };
+
+    // subscription side: the real mapper
+    let subs: Vec<Subscription<Ex, Inst, Kind>> = insts.into_iter().map(|inst| Subscription::new(Ex::default(), inst, kind.clone())).collect();
+    let meta: SubscriptionMeta<Inst::Key> = WebSocketSubMapper::map::<Ex, Inst, Kind>(&subs);
 
     // Bitfinex: the real validator re-keys the table with the venue's channel ids
     let (map, mut msgs): (Map<Inst::Key>, Vec<Msg>) = if spec.fam == Fam::Bitfinex {
@@ -910,13 +1034,32 @@ where
                 items
                     .into_iter()
                     .map(|r| match r {
-                        Ok(ev) => Ok(ObsEv {
-                            key: key_idx(&ev.instrument).map(|i| driven.canon[i]),
-                            exchange: ev.exchange,
-                            time: ev.time_exchange,
-                            nums: ev.kind.nums(),
-                            side: ev.kind.side(),
-                        }),
+                        Ok(ev) => {
+                            let mut pre = ObsEv {
+                                conv_diff: None,
+                                key: key_idx(&ev.instrument).map(|i| driven.canon[i]),
+                                exchange: ev.exchange,
+                                time: ev.time_exchange,
+                                kind_time: ev.kind.kind_time(),
+                                nums: ev.kind.nums(),
+                                side: ev.kind.side(),
+                            };
+                            let conv: MarketEvent<Inst::Key, DataKind> = ev.into();
+                            let post = ObsEv {
+                                conv_diff: None,
+                                key: key_idx(&conv.instrument).map(|i| driven.canon[i]),
+                                exchange: conv.exchange,
+                                time: conv.time_exchange,
+                                kind_time: conv.kind.kind_time(),
+                                nums: conv.kind.nums(),
+                                side: conv.kind.side(),
+                            };
+                            let (a, b) = (format!("{pre:?}"), format!("{post:?}"));
+                            if a != b {
+                                pre.conv_diff = Some(format!("transformer output {a}, as MarketEvent<_, DataKind> {b}"));
+                            }
+                            Ok(pre)
+                        }
                         Err(e) => Err(format!("{e} / {e:?}")),
                     })
                     .collect(),
@@ -1032,6 +1175,7 @@ fn run_config(pair: usize, flavour: usize, a: &Args) -> Driven {
                     ($i, 1) => drive::<$ex, MarketInstrumentData<u32>, _>($kind, a),
                     ($i, 2) => drive::<$ex, MarketDataInstrument, _>($kind, a),
                     ($i, 3) => drive::<$ex, MarketInstrumentData<InstrumentIndex>, _>($kind, a),
+                    ($i, 4) => drive::<$ex, Keyed<InstrumentIndex, MarketDataInstrument>, _>($kind, a),
                 )*
                 _ => unreachable!("unknown pair/flavour"),
             }
@@ -1109,11 +1253,12 @@ fn cause_of_miss(d: &Driven, owners: &BTreeSet<usize>, market: &str) -> &'static
 }
 
 /// Evaluate the oracle over every message of one configuration. `report(signature, detail, market, variant)`.
-fn judge(spec: &PairSpec, flavour: usize, subset: &[usize], d: &Driven, stats: &Stats, outcomes: &mut BTreeSet<String>, report: &mut dyn FnMut(String, String, &str, &str)) {
+fn judge(spec: &PairSpec, flavour: usize, via: usize, subset: &[usize], d: &Driven, stats: &Stats, outcomes: &mut BTreeSet<String>, report: &mut dyn FnMut(String, String, &str, &str)) {
     let fam = format!("{:?}", spec.fam);
     let flav = FLAVOURS[flavour];
     // signature component: how the market was obtained (keyed and plain share the connector's `*_market` function)
     let how = if flavour == 1 || flavour == 3 { "exchange-name" } else { "derived-from-base-quote" };
+    let via_s = VIAS[via];
     // owners per venue market (canonical key indices)
     let owners_of = |market: &str| -> BTreeSet<usize> {
         subset.iter().filter(|i| venue_symbol(spec.fam, &spec.menu[**i]) == market).map(|i| d.canon[*i]).collect()
@@ -1134,22 +1279,30 @@ fn judge(spec: &PairSpec, flavour: usize, subset: &[usize], d: &Driven, stats: &
             stats.collision_handshake_rejected.fetch_add(1, Relaxed);
             return;
         }
-        let m = venue_symbol(spec.fam, &spec.menu[subset[0]]);
-        let what = if !e.contains("handshake") {
+        // (the market named in the report: of the mis-indexed instrument if that is the problem, else of the first)
+        let culprit = subset.iter().find(|i| e.contains(&format!("{:?}", spec.menu[**i]))).unwrap_or(&subset[0]);
+        let m = venue_symbol(spec.fam, &spec.menu[*culprit]);
+        let what = if e.starts_with("indexing: wrong-instrument") {
+            "subscription-indexed-under-other-instrument"
+        } else if e.starts_with("indexing:") {
+            "subscription-indexing-failed"
+        } else if e.starts_with("dynamic validation:") {
+            "dynamic-validation-rejected"
+        } else if !e.contains("handshake") {
             "transformer-init-failed"
         } else if d.unsettled {
             "subscription-validation-does-not-complete"
         } else {
             "venue-rejects-subscription"
         };
-        report(format!("C13/R1-subscribed-market-lost/{fam}/{}/{how}/{what}", kinds_of(&m)), format!("pair={} subset={subset:?}: {e}", spec.name), &m, "");
+        report(format!("C13/R1-subscribed-market-lost/{fam}/{}/{how}/{what}", kinds_of(&m)), format!("pair={} flavour={flav} via={via_s} subset={subset:?}: {e}", spec.name), &m, "");
         return;
     }
 
     for (msg, obs) in d.msgs.iter().zip(&d.obs) {
         stats.evaluations.fetch_add(1, Relaxed);
         let owners = owners_of(&msg.market);
-        let mut rep = |sig: String, detail: String| report(sig, format!("pair={} flavour={flav} subset={subset:?} market={} variant={} table={:?}: {detail}", spec.name, msg.market, msg.variant, d.map_ids), &msg.market, msg.variant);
+        let mut rep = |sig: String, detail: String| report(sig, format!("pair={} flavour={flav} via={via_s} subset={subset:?} market={} variant={} table={:?}: {detail}", spec.name, msg.market, msg.variant, d.map_ids), &msg.market, msg.variant);
         let class: String;
         if owners.is_empty() {
             // ---- R5: nobody subscribed this market
@@ -1210,7 +1363,10 @@ fn judge(spec: &PairSpec, flavour: usize, subset: &[usize], d: &Driven, stats: &
                         if denotes_unidentifiable(e, &msg.market) {
                             let cause = cause_of_miss(d, &owners, &msg.market);
                             rep(
-                                if cause == "market-differs" || cause == "channel-part-differs" {
+                                if via == 1 && cause == "owner-not-in-table" {
+                                    // only the `DynamicStreams` front end can lose a subscription before the mapper
+                                    "C13/R1-subscribed-market-unidentifiable/dynamic-front-end-dropped-subscription".to_string()
+                                } else if cause == "market-differs" || cause == "channel-part-differs" {
                                     format!("C13/R1-subscribed-market-unidentifiable/{fam}/{how}/{cause}/{ik}")
                                 } else {
                                     format!("C13/R1-subscribed-market-unidentifiable/{fam}/{how}/{cause}")
@@ -1231,6 +1387,10 @@ fn judge(spec: &PairSpec, flavour: usize, subset: &[usize], d: &Driven, stats: &
                     } else {
                         for (ev, exp) in items.iter().map(|i| i.as_ref().unwrap()).zip(&msg.expect) {
                             stats.events_checked.fetch_add(1, Relaxed);
+                            if let Some(diff) = &ev.conv_diff {
+                                rep("C13/R4-values/conversion-to-DataKind-event-alters-key-exchange-time-or-values".to_string(), diff.clone());
+                                c = "sub:datakind-conversion".into();
+                            }
                             if !ev.key.is_some_and(|k| owners.contains(&k)) {
                                 rep(
                                     format!("C13/R2-misattributed/{fam}/{how}"),
@@ -1261,6 +1421,16 @@ fn judge(spec: &PairSpec, flavour: usize, subset: &[usize], d: &Driven, stats: &
                                 );
                                 c = "sub:time".into();
                             }
+                            // the same exchange time inside the event kind (L1 `last_update_time`)
+                            if let Some(kt) = ev.kind_time {
+                                if !exp.times.is_empty() && !exp.times.iter().any(|t| (kt - *t).num_microseconds().is_some_and(|us| us.abs() <= 1000)) {
+                                    rep(
+                                        format!("C13/R4-values/{fam}/{:?}/last-update-time", spec.sk),
+                                        format!("event kind's last_update_time {kt}, payload carries {:?}", exp.times),
+                                    );
+                                    c = "sub:kind-time".into();
+                                }
+                            }
                         }
                         if owners.len() > 1 && c == "sub:ok" {
                             c = "sub:ok-collision".into();
@@ -1271,6 +1441,9 @@ fn judge(spec: &PairSpec, flavour: usize, subset: &[usize], d: &Driven, stats: &
             };
         }
         outcomes.insert(format!("{}|{flav}|{class}", spec.name));
+        if via == 1 {
+            outcomes.insert(format!("{}|via-dynamic|{class}", spec.name));
+        }
     }
 }
 
@@ -1297,10 +1470,11 @@ fn instrument_sets(n: usize, max_set: usize, max_perm: usize) -> Vec<Vec<usize>>
     out
 }
 
-fn case_json(spec: &PairSpec, flavour: usize, subset: &[usize], market: &str, variant: &str) -> Value {
+fn case_json(spec: &PairSpec, flavour: usize, via: usize, subset: &[usize], market: &str, variant: &str) -> Value {
     json!({
         "pair": spec.name,
         "flavour": FLAVOURS[flavour],
+        "via": VIAS[via],
         "subset": subset,
         "instruments": subset.iter().map(|i| format!("{}/{}:{:?}", spec.menu[*i].base, spec.menu[*i].quote, spec.menu[*i].kind)).collect::<Vec<_>>(),
         "market": market,
@@ -1323,12 +1497,17 @@ pub fn run(ctx: &Ctx) -> Outcome {
     // Bitfinex needs a TCP handshake per configuration: keep its sets a little smaller in the thorough tier
     let bitfinex_max_set = ctx.tier.pick(3, 5);
 
-    let mut configs: Vec<(usize, usize, Vec<usize>)> = Vec::new();
+    // (pair, flavour, via, ordered instrument set); the `dynamic` front end sorts the batch itself, so it is run for
+    // the ascending sets only
+    let mut configs: Vec<(usize, usize, usize, Vec<usize>)> = Vec::new();
     for (pi, s) in specs.iter().enumerate() {
         let ms = if s.fam == Fam::Bitfinex { max_set.min(bitfinex_max_set) } else { max_set };
         for set in instrument_sets(s.menu.len(), ms, max_perm) {
             for fl in 0..FLAVOURS.len() {
-                configs.push((pi, fl, set.clone()));
+                configs.push((pi, fl, 0, set.clone()));
+                if set.windows(2).all(|w| w[0] < w[1]) {
+                    configs.push((pi, fl, 1, set.clone()));
+                }
             }
         }
     }
@@ -1339,19 +1518,19 @@ pub fn run(ctx: &Ctx) -> Outcome {
     let samples = Samples::new(6);
     let per_pair: Mutex<BTreeMap<&'static str, (u64, u64)>> = Mutex::new(BTreeMap::new());
 
-    let unsettled: Mutex<Vec<(usize, usize, Vec<usize>)>> = Mutex::new(Vec::new());
-    configs.par_iter().for_each(|(pi, fl, set)| {
+    let unsettled: Mutex<Vec<(usize, usize, usize, Vec<usize>)>> = Mutex::new(Vec::new());
+    configs.par_iter().for_each(|(pi, fl, via, set)| {
         let spec = &specs[*pi];
-        let d = run_config(*pi, *fl, &Args { spec, subset: set, only: None });
+        let d = run_config(*pi, *fl, &Args { spec, subset: set, dynamic: *via == 1, only: None });
         stats.configs.fetch_add(1, Relaxed);
         if d.unsettled {
-            unsettled.lock().unwrap().push((*pi, *fl, set.clone()));
+            unsettled.lock().unwrap().push((*pi, *fl, *via, set.clone()));
             return;
         }
-        tables.add(&(spec.name, *fl, &d.map_ids));
+        tables.add(&(spec.name, *fl, *via, &d.map_ids));
         let mut local = BTreeSet::new();
-        judge(spec, *fl, set, &d, &stats, &mut local, &mut |sig, detail, market, variant| {
-            ctx.violate(sig, detail, case_json(spec, *fl, set, market, variant));
+        judge(spec, *fl, *via, set, &d, &stats, &mut local, &mut |sig, detail, market, variant| {
+            ctx.violate(sig, detail, case_json(spec, *fl, *via, set, market, variant));
         });
         outcomes.lock().unwrap().extend(local);
         {
@@ -1360,8 +1539,8 @@ pub fn run(ctx: &Ctx) -> Outcome {
             e.0 += 1;
             e.1 += d.obs.len() as u64;
         }
-        if set.len() == 2 && *fl == 1 && (*pi == 0 || *pi == 18 || *pi == 20) && set[0] == 0 {
-            samples.offer(|| json!({"case": case_json(spec, *fl, set, "", ""), "table": d.map_ids, "messages": d.msgs.len()}));
+        if set.len() == 2 && *fl == 1 && *via == 0 && (*pi == 0 || *pi == 18 || *pi == 20) && set[0] == 0 {
+            samples.offer(|| json!({"case": case_json(spec, *fl, *via, set, "", ""), "table": d.map_ids, "messages": d.msgs.len()}));
         }
     });
 
@@ -1370,19 +1549,19 @@ pub fn run(ctx: &Ctx) -> Outcome {
     let mut unsettled = unsettled.into_inner().unwrap();
     unsettled.sort();
     let resettled = unsettled.len();
-    for (pi, fl, set) in unsettled {
+    for (pi, fl, via, set) in unsettled {
         let spec = &specs[pi];
         let before = loopback_healthy();
-        let d = run_config(pi, fl, &Args { spec, subset: &set, only: None });
+        let d = run_config(pi, fl, &Args { spec, subset: &set, dynamic: via == 1, only: None });
         let after = loopback_healthy();
         if d.unsettled && !(before && after) {
             eprintln!("MACHINERY: C13 loopback handshake for {} {:?} failed in an unhealthy environment ({:?}); no verdict", spec.name, set, d.setup_err);
             std::process::exit(2);
         }
-        tables.add(&(spec.name, fl, &d.map_ids));
+        tables.add(&(spec.name, fl, via, &d.map_ids));
         let mut local = BTreeSet::new();
-        judge(spec, fl, &set, &d, &stats, &mut local, &mut |sig, detail, market, variant| {
-            ctx.violate(sig, detail, case_json(spec, fl, &set, market, variant));
+        judge(spec, fl, via, &set, &d, &stats, &mut local, &mut |sig, detail, market, variant| {
+            ctx.violate(sig, detail, case_json(spec, fl, via, &set, market, variant));
         });
         outcomes.lock().unwrap().extend(local);
     }
@@ -1410,7 +1589,8 @@ pub fn run(ctx: &Ctx) -> Outcome {
             "per_pair_configs_and_messages": per_pair.iter().map(|(k, v)| json!({"pair": k, "configs": v.0, "messages": v.1})).collect::<Vec<_>>(),
             "outcome_classes": outcomes.iter().collect::<Vec<_>>(),
             "exhaustive": true,
-            "rule": "for each of the 21 DynamicStreams (connector, kind) arms x 3 instrument flavours x every ordered instrument set (bounds above) from the connector's menu: real WebSocketSubMapper::map -> [Bitfinex: real validator handshake] -> real ExchangeTransformer::init of the StreamSelector's transformer -> for every venue market (subscribed or not) 2-3 synthesised payloads -> serde_json::from_str::<Input> -> transform; oracle R1-R5 of the module doc",
+            "vias": VIAS,
+            "rule": "for each of the 21 DynamicStreams (connector, kind) arms x 5 instrument flavours (incl. the two produced by the real generate_indexed_market_data_subscription_batches / index_market_data_subscription_batches from real IndexedInstruments) x every ordered instrument set (bounds above) from the connector's menu x {direct, through the real validate_batches front end of DynamicStreams::init (ascending sets)}: real WebSocketSubMapper::map -> [Bitfinex: real validator handshake] -> real ExchangeTransformer::init of the StreamSelector's transformer -> for every venue market (subscribed or not) 2-3 synthesised payloads -> serde_json::from_str::<Input> -> transform -> real conversion into MarketEvent<_, DataKind>; oracle R1-R5 of the module doc (+ indexed key = index of the named instrument, L1 last_update_time, conversion preserves the event)",
             "samples": samples.take(),
         }),
         assumptions: vec![
@@ -1422,6 +1602,10 @@ pub fn run(ctx: &Ctx) -> Outcome {
             "a batch payload carries trades of one market (as in every doc-comment example)".into(),
             "Binance L2: the harness supplies the initial snapshot (lastUpdateId 100) through the real snapshot conversion since there is no network; updates are sequenced so that the sequencer accepts them".into(),
             "instrument sets of at most max_set_size instruments per connection".into(),
+            "prices / quantities are decimal strings with 2 and 8 decimals, mostly not exactly representable in binary, compared with 1e-9 relative tolerance".into(),
+            "an L1 event's last_update_time is the exchange time of the update: judged like time_exchange, only where the message carries a time".into(),
+            "the conversion into MarketEvent<_, DataKind> (DynamicStreams::select_all, the engine's path) is a wrapper: it must not change key, exchange, exchange time or values".into(),
+            "`dynamic` front end: only validate_batches (validate, sort, dedup) and the re-wrapping are driven; the arms of DynamicStreams::init themselves open network connections and are not".into(),
         ],
     }
 }
@@ -1434,6 +1618,7 @@ pub fn replay(ctx: &Ctx, case: &Value) {
         std::process::exit(2)
     };
     let fl = FLAVOURS.iter().position(|f| Some(*f) == case["flavour"].as_str()).unwrap_or(0);
+    let via = VIAS.iter().position(|f| Some(*f) == case["via"].as_str()).unwrap_or(0);
     let subset: Vec<usize> = case["subset"].as_array().map(|a| a.iter().filter_map(|v| v.as_u64().map(|x| x as usize)).collect()).unwrap_or_default();
     if subset.is_empty() || subset.iter().any(|i| *i >= specs[pi].menu.len()) {
         eprintln!("MACHINERY: C13 replay: bad subset");
@@ -1442,18 +1627,18 @@ pub fn replay(ctx: &Ctx, case: &Value) {
     let market = case["market"].as_str().filter(|s| !s.is_empty());
     let variant = case["variant"].as_str().filter(|s| !s.is_empty());
     let spec = &specs[pi];
-    let d = run_config(pi, fl, &Args { spec, subset: &subset, only: market.map(|m| (m, variant)) });
+    let d = run_config(pi, fl, &Args { spec, subset: &subset, dynamic: via == 1, only: market.map(|m| (m, variant)) });
     if d.unsettled && !loopback_healthy() {
         eprintln!("MACHINERY: C13 replay: loopback handshake failed in an unhealthy environment; no verdict");
         std::process::exit(2)
     }
-    println!("replay {} flavour={} subset={subset:?} table={:?} setup_err={:?}", spec.name, FLAVOURS[fl], d.map_ids, d.setup_err);
+    println!("replay {} flavour={} via={} subset={subset:?} table={:?} setup_err={:?}", spec.name, FLAVOURS[fl], VIAS[via], d.map_ids, d.setup_err);
     for (m, o) in d.msgs.iter().zip(&d.obs) {
         println!("  payload[{} {}] {} -> {o:?}", m.market, m.variant, m.json);
     }
     let stats = Stats::default();
     let mut oc = BTreeSet::new();
-    judge(spec, fl, &subset, &d, &stats, &mut oc, &mut |sig, detail, mk, var| {
+    judge(spec, fl, via, &subset, &d, &stats, &mut oc, &mut |sig, detail, mk, var| {
         // when the recorded case names a variant, only that message is the subject
         if variant.is_none_or(|v| v == var) {
             ctx.violate(sig, detail, case.clone());
